@@ -285,7 +285,19 @@ def r3(ctx: Context, sites) -> None:
             # empty queue yields None: the pop is guarded by a truth test of the queue
             pm = parent_map(ret.node)
             guarded = any(isinstance(a, ast.If) and self_attr(a.test) == attr for a in _ancestors(pm, po)) or any(isinstance(a, ast.Try) for a in _ancestors(pm, po))
+            if not guarded:
+                # early-return form: `if not self.<queue>: return None` before the pop
+                for st_ in walk_no_nested(ret.node):
+                    if isinstance(st_, ast.If) and isinstance(st_.test, ast.UnaryOp) and isinstance(st_.test.op, ast.Not) and self_attr(st_.test.operand) == attr and st_.body and isinstance(st_.body[-1], ast.Return) and st_.lineno < po.lineno:
+                        guarded = True
             ctx.add("R3", f"{c.qualname}::empty-guard", guarded, ret.loc(po), "" if guarded else "pop on an empty deque is not guarded")
+            # delivery is ONE deque operation: what is handed to the caller is the value popleft()/pop() returned, not an
+            # element read beforehand (deque operations are atomic, a peek followed by a pop is not)
+            par = pm.get(id(po))
+            popped_names = {t.id for n in walk_no_nested(ret.node) if isinstance(n, ast.Assign) and n.value is po for t in n.targets if isinstance(t, ast.Name)}
+            rets_ = [r for r in walk_no_nested(ret.node) if isinstance(r, ast.Return) and r.value is not None and not (isinstance(r.value, ast.Constant) and r.value.value is None)]
+            atomic = bool(rets_) and all(r.value is po or (isinstance(r.value, ast.Name) and r.value.id in popped_names) for r in rets_)
+            ctx.add("R3", f"{c.qualname}::delivered-value-is-the-popped-value", atomic, ret.loc(po), "" if atomic else "the id handed to the caller is read from the queue separately from the pop (peek, then pop): two consumers can both read the same head, one removes it, the other removes the NEXT message and still returns the first - one invocation delivered twice, the other lost")
     ctx.floor("R3", "FIFO obligations", ctx.count("R3"), 3)
 
 
